@@ -6,10 +6,12 @@ import hv
 from hv import Case
 
 SPEC = {
-    "lean_modules": ["Honeycomb.Props.C01", "Honeycomb.Props.C01b", "Honeycomb.Props.C01Gen", "Honeycomb.Props.C01Gen2"],
+    "lean_modules": ["Honeycomb.Props.C01", "Honeycomb.Props.C01b", "Honeycomb.Props.C01Gen", "Honeycomb.Props.C01Gen2", "Honeycomb.Props.C01GenApi"],
     # Gen/LinkCores.lean is re-translated from components/betas.rs before every build
-    "gen": ["cores", "sews2"],
+    "gen": ["cores", "sews2", "dispatch2"],
     "required_theorems": [
+        # Props/C01GenApi.lean: C01.prog IS the translated dispatch of dim2/links/mod.rs + dim2/sews/mod.rs into the translated bodies
+        "C01_gen_api", "C01_gen_force_tables", "C01_gen_api_step_preserves_WF",
         # Props/C01Gen2.lean: the translated CMap2::one_sew / one_unsew ARE the model's oneSew2 / oneUnsew2
         "C01_gen_oneSew2", "C01_gen_oneUnsew2", "C01_gen_twoSew2", "C01_gen_twoUnsew2", "C01_gen_two_sews_preserve_WF", "C01_gen_one_sews_preserve_WF",
         # Props/C01Gen.lean: the translated *_core functions of betas.rs ARE the model's link cores (program equality)
